@@ -39,6 +39,7 @@ type c11Input struct {
 	Rules []string `json:"rules"`
 	Two   bool     `json:"two"`
 	Grp   bool     `json:"grp"` // the group carries labels (team, tier) that rules inherit or override
+	Sym   bool     `json:"sym"` // the second file is a symlink to the first one (GlobFinder reports link and target)
 	// replay only: arrival orders, each a list of [job, k] (job = index among the non-empty jobs, 1-based)
 	Orders [][][2]int `json:"orders,omitempty"`
 }
@@ -104,6 +105,9 @@ rule {
     severity = "%s"
   }
 }
+check "promql/regexp" {
+  smelly = false
+}
 `, sev("warning", "bug"), sev("warning", "info"), sev("warning", "bug"), "warning")
 	// same: both `team` blocks warn -> two jobs report the identical problem (merged by Summary.Report);
 	// mixed: the first block reports a bug, the second a warning -> the same problem at two severities
@@ -124,6 +128,8 @@ func c11Rule(kind string, i int) []string {
 			"    annotations:", "      summary: '{{ $labels.instance }}'", "      runbook: '{{ $labels.instance }}'"}
 	case "regexp":
 		return append([]string{"  - alert: A" + n, `    expr: up{job=~"^foo$", instance=~"bar"} == 0`}, full...)
+	case "smelly": // a selector promql/regexp calls smelly; the configuration switches that off (check "promql/regexp" { smelly = false })
+		return append([]string{"  - alert: A" + n, `    expr: up{job=~"service-.+-prod", instance=~".+-db-.+"} == 0`}, full...)
 	case "both":
 		return []string{"  - alert: A" + n, `    expr: up{job=~"^foo$", instance=~"bar"} == 0`}
 	case "agg":
@@ -146,8 +152,10 @@ func c11Files(in c11Input) (map[string][]byte, []string) {
 	txt := []byte(strings.Join(l, "\n") + "\n")
 	files := map[string][]byte{"rules1.yml": txt}
 	order := []string{"rules1.yml"}
-	if in.Two {
+	if in.Two && !in.Sym {
 		files["rules2.yml"] = txt
+	}
+	if in.Two || in.Sym {
 		order = append(order, "rules2.yml")
 	}
 	return files, order
@@ -157,10 +165,8 @@ func c11Files(in c11Input) (map[string][]byte, []string) {
 // returns the reports of every job indexed by its position in the queue. Files are parsed afresh.
 func c11Execute(dir string, in c11Input, perm func(n int) []int) ([][]reporter.Report, error) {
 	files, order := c11Files(in)
-	for n, b := range files {
-		if err := os.WriteFile(filepath.Join(dir, n), b, 0o644); err != nil {
-			return nil, err
-		}
+	if err := c11Write(dir, in, files); err != nil {
+		return nil, err
 	}
 	p, err := pipe.Prepare(dir, order, pipe.Opts{Strict: true, Offline: in.Cfg != "prom2", Command: "lint", Config: c11Config(in.Cfg)})
 	if err != nil {
@@ -187,6 +193,20 @@ func c11Execute(dir string, in c11Input, perm func(n int) []int) ([][]reporter.R
 		}
 	}()
 	return out, perr
+}
+
+// writes the files of an input; with Sym the second file is a symbolic link to the first
+func c11Write(dir string, in c11Input, files map[string][]byte) error {
+	_ = os.Remove(filepath.Join(dir, "rules2.yml"))
+	for n, b := range files {
+		if err := os.WriteFile(filepath.Join(dir, n), b, 0o644); err != nil {
+			return err
+		}
+	}
+	if in.Sym {
+		return os.Symlink("rules1.yml", filepath.Join(dir, "rules2.yml"))
+	}
+	return nil
 }
 
 // non-empty jobs in queue order, each with its reports in emission order
@@ -389,7 +409,7 @@ func c11Replay(id int, in c11Input, emit func(any)) error {
 		}
 	}
 	rules := append([]string{}, in.Rules...)
-	emit(map[string]any{"ev": "File", "id": id, "cfg": in.Cfg, "rules": rules, "two": in.Two, "grp": in.Grp, "shape": shape, "n": len(reps),
+	emit(map[string]any{"ev": "File", "id": id, "cfg": in.Cfg, "rules": rules, "two": in.Two, "grp": in.Grp, "sym": in.Sym, "shape": shape, "n": len(reps),
 		"reports": reps, "reps": rk.names("rep"), "alldiags": c11ProbeAllDiags()})
 	// the checks themselves executed in other orders: every job must report what it reports in queue order
 	rev := func(n int) []int {
@@ -434,7 +454,7 @@ func c11Replay(id int, in c11Input, emit func(any)) error {
 		}
 	}
 	orders := append([][][2]int{canon}, in.Orders...)
-	bindN := 6
+	bindN := 2
 	if os.Getenv("VERIF_TIER") == "thorough" {
 		bindN = 8
 	}
@@ -655,8 +675,9 @@ func init() {
 			}
 			defer os.RemoveAll(dir)
 			files, order := c11Files(c.c11Input)
-			for n, b := range files {
-				_ = os.WriteFile(filepath.Join(dir, n), b, 0o644)
+			if err := c11Write(dir, c.c11Input, files); err != nil {
+				fail(err)
+				return
 			}
 			hcl := c11Config(c.Cfg)
 			if c.Mode == "" {
@@ -695,7 +716,7 @@ func init() {
 			}
 			id := idx + 1
 			rules := append([]string{}, c.Rules...)
-			recs := []any{map[string]any{"ev": "BinFile", "id": id, "cfg": c.Cfg, "rules": rules, "two": c.Two, "grp": c.Grp, "mode": c.Mode}}
+			recs := []any{map[string]any{"ev": "BinFile", "id": id, "cfg": c.Cfg, "rules": rules, "two": c.Two, "grp": c.Grp, "sym": c.Sym, "mode": c.Mode}}
 			combos := append([][3]int{{1, 1, 0}}, c.Combos...)
 			for k, cb := range combos {
 				seed := ""
